@@ -192,7 +192,7 @@ where
     ) -> impl Future<Output = Result<usize>> + use<'a, S> {
         let this = Rc::clone(self);
         async move {
-            let this = TemporaryNonBlockingGuard::new(&this, fd);
+            let mut this = TemporaryNonBlockingGuard::new(&this, fd);
             let waker = LazyCell::default();
             loop {
                 match this.inner.read(fd, buffer).await {
@@ -201,7 +201,8 @@ where
                         reason = "EWOULDBLOCK is unreachable if it has the same value as EAGAIN"
                     )]
                     Err(Errno::EAGAIN | Errno::EWOULDBLOCK | Errno::EINTR) => {
-                        this.yield_for_read(fd, &waker).await
+                        this.yield_for_read(fd, &waker).await;
+                        this.ensure_nonblocking();
                     }
 
                     result => return result,
@@ -231,7 +232,7 @@ where
     ) -> impl Future<Output = Result<usize>> + use<'a, S> {
         let this = Rc::clone(self);
         async move {
-            let this = TemporaryNonBlockingGuard::new(&this, fd);
+            let mut this = TemporaryNonBlockingGuard::new(&this, fd);
             let waker = LazyCell::default();
             loop {
                 match this.inner.write(fd, buffer).await {
@@ -240,7 +241,8 @@ where
                         reason = "EWOULDBLOCK is unreachable if it has the same value as EAGAIN"
                     )]
                     Err(Errno::EAGAIN | Errno::EWOULDBLOCK | Errno::EINTR) => {
-                        this.yield_for_write(fd, &waker).await
+                        this.yield_for_write(fd, &waker).await;
+                        this.ensure_nonblocking();
                     }
 
                     result => return result,
@@ -578,6 +580,21 @@ impl<'a, S: Fcntl + Sigmask> TemporaryNonBlockingGuard<'a, S> {
             system,
             fd,
             original_nonblocking: system.inner.get_and_set_nonblocking(fd, true) == Ok(true),
+        }
+    }
+
+    /// Re-enables the non-blocking mode after the task has yielded.
+    ///
+    /// The non-blocking mode is a property of the open file description, which
+    /// may be shared with another process that also sets the mode temporarily.
+    /// When that process is done, it restores the blocking mode while this task
+    /// is still waiting, so the mode must be set again before the operation is
+    /// retried. If the blocking mode is seen here, it is the original mode
+    /// (the other process has restored it), so it is restored when this guard
+    /// is dropped.
+    fn ensure_nonblocking(&mut self) {
+        if self.system.inner.get_and_set_nonblocking(self.fd, true) == Ok(false) {
+            self.original_nonblocking = false;
         }
     }
 }
